@@ -254,6 +254,35 @@ func TestManyIntegersAndDeepLoops(t *testing.T) {
 		runCase(t, "registers", Case{Inputs: inputs})
 		pbt.AddExact(int64(len(inputs)), int64(len(inputs)), "registers")
 	}
+	// counted loops nested 1..3 deep whose innermost body does something a register can't do (or leaves the loop
+	// abnormally) to the loop variable of each level, bare / caught / inside a function: every such input alone,
+	// and all of them one after the other in one session (what one leaves behind meets the next).
+	var special []string
+	for depth := 1; depth <= 3; depth++ {
+		for target := 0; target < depth; target++ {
+			v := fmt.Sprintf("v%d", target)
+			for _, stmt := range []string{v + "++", v + "--", "++" + v, "zf = () => " + v, "zf = func() { " + v + " + 1 }; zf()", v + " = \"s\"", v + " = " + v + " + 1", "del(" + v + ")",
+				"func zg(" + v + ") { " + v + " }; zg(2)", "zh = " + v + " => " + v + " * 2; zh(3)", "error(\"e\", " + v + ")", "if " + v + " == 1 { break }", "if " + v + " == 0 { continue }", "[" + v + "][5] = 1", "zm = {}; zm[" + v + "] = " + v} {
+				src, closing := "", ""
+				for d := 0; d < depth; d++ {
+					src += fmt.Sprintf("for v%d = 2 { ", d)
+					closing += " }"
+				}
+				loop := src + stmt + closing
+				special = append(special, loop, "catch("+loop+")", "func zw() { "+loop+" }; catch(zw())")
+			}
+		}
+	}
+	for i, in := range special {
+		if pbt.Mine(i + 1) {
+			runCase(t, "registers-special", Case{Inputs: []string{in, "for zz = 2 { zz }"}})
+			pbt.CaseExact(true, "registers:special-loop-body-alone")
+		}
+	}
+	if pbt.Mine(0) {
+		runCase(t, "registers-special", Case{Inputs: append(append([]string{}, special...), "for zz = 3 { for zy = 2 { zz + zy } }")})
+		pbt.AddExact(int64(len(special)), int64(len(special)), "registers:special-loop-bodies-in-one-session")
+	}
 }
 
 var skipExt = map[string]bool{"read": true, "exec": true, "run": true, "sleep": true}
